@@ -30,7 +30,7 @@ def miri_scen(prop, table, tier, sample=40, mult=16):
     # Miri interprets ~10^3-10^4 x slower: every seed explores a different 1/mult slice of the table,
     # sampled; the tracking allocator is off (Miri is the allocator oracle there)
     extra = ["--groupshard"] if table == "c06" else []
-    sample = {"c06": 60, "c03": 40, "c04": 8, "c07": 12}.get(table, sample)
+    sample = {"c06": 150, "c03": 40, "c04": 8, "c07": 12}.get(table, sample)
     if tier == T:
         sample, mult = max(1, sample // 4), max(1, mult // 4)
     return miri(f"{table}-sample", "gcmon", ["scen", "--prop", prop, "--table", table, "--sample", sample, "--shardmult", mult, "--notrack"] + extra)
